@@ -76,4 +76,10 @@ def keysPublic (c : CurveParams) (item : PubItem) (isCompressed : Option Bool) :
       | .ok k => .ok k
       | .error e => .error (.sec e)
 
+/-- `encoding.sec.is_sec(sec)`: the shape test — prefix `02`/`03` with 33 bytes or `04` with 65 -/
+def isSec (sec : Bytes) : Bool :=
+  let c := sec.take 1
+  if (c = [2] ∨ c = [3]) ∧ sec.length = 33 then true
+  else decide (c = [4] ∧ sec.length = 65)
+
 end Pycoin.KeyOps
